@@ -192,6 +192,11 @@ class MapMethod(M.Model):
             return None
         if name == 'clear':
             return m_clear(m)
+        if name == 'add':
+            ke = lift(args[0])
+            m.dom = z3.Store(m.dom, ke, z3.BoolVal(True))
+            m.keys = None
+            return None
         if name == 'update':
             if args:
                 m_update(I, m, args[0], node)
@@ -241,7 +246,7 @@ class MapMethod(M.Model):
         raise M._oos('dict.%s on a symbolic dict' % name, node)
 
 
-DICT_METHODS = {'__setitem__', '__delitem__', '__getitem__', '__contains__', '__init__', 'clear', 'update', '__ior__',
+DICT_METHODS = {'add', '__setitem__', '__delitem__', '__getitem__', '__contains__', '__init__', 'clear', 'update', '__ior__',
                 'get', 'pop', 'popitem', 'setdefault', 'keys', 'items', 'copy', '__iter__'}
 DICT_MUTATORS = ['__setitem__', '__delitem__', 'clear', 'pop', 'popitem', 'setdefault', 'update', '__ior__']
 
